@@ -369,6 +369,75 @@ func c09Load(cs *h.Case, text string, root string, slot **c09Static) *c09Static 
 	return *slot
 }
 
+// c09BoundaryMsg builds a message with one length-delimited region (nested message, map entry, packed list,
+// list element, string map entry) of a boundary size, padded so that the region ends exactly at or next to an
+// output offset the pooled 4 KiB buffer passes through (4096, 8192).
+func c09BoundaryMsg(cs *h.Case, st *c09Static) (*dynamicpb.Message, int, string) {
+	inD := st.md.Fields().ByName("in").Message()
+	root := dynamicpb.NewMessage(st.md)
+	mkIn := func(bodyLen int, nest int) *dynamicpb.Message {
+		// a message whose encoding is exactly bodyLen bytes (bodyLen >= 3): string s fills the rest
+		in := dynamicpb.NewMessage(inD)
+		cur := in
+		for k := 0; k < nest; k++ {
+			nx := dynamicpb.NewMessage(inD)
+			cur.Set(inD.Fields().ByName("in"), protoreflect.ValueOfMessage(nx))
+			cur = nx
+		}
+		for pad := 0; pad <= bodyLen; pad++ {
+			cur.Set(inD.Fields().ByName("s"), protoreflect.ValueOfString(strings.Repeat("b", pad)))
+			if len(PMarshal(in)) >= bodyLen {
+				break
+			}
+		}
+		return in
+	}
+	bodies := []int{126, 127, 128, 129, 130, 200, 16382, 16383, 16384, 16385, 20000}
+	body := bodies[cs.I%len(bodies)]
+	if cs.I >= len(bodies)*60 {
+		body = 100 + cs.R.Intn(500)
+	}
+	region := cs.R.Intn(5)
+	nest := cs.R.Intn(3)
+	switch region {
+	case 0:
+		root.Set(st.md.Fields().ByName("in"), protoreflect.ValueOfMessage(mkIn(body, nest)))
+	case 1:
+		root.Mutable(st.md.Fields().ByName("m")).Map().Set(protoreflect.ValueOfString("k").MapKey(), protoreflect.ValueOfMessage(mkIn(body, nest)))
+	case 2:
+		l := root.Mutable(st.md.Fields().ByName("p")).List()
+		for k := 0; k < body/2; k++ {
+			l.Append(protoreflect.ValueOfInt64(int64(cs.R.Intn(60)))) // zig-zag: one byte each up to 63
+		}
+	case 3:
+		root.Mutable(st.md.Fields().ByName("l")).List().Append(protoreflect.ValueOfMessage(mkIn(body, nest)))
+	case 4:
+		root.Mutable(st.md.Fields().ByName("ms")).Map().Set(protoreflect.ValueOfString("key").MapKey(), protoreflect.ValueOfString(strings.Repeat("v", body)))
+	}
+	// choose pad so that the region ends exactly at (or next to) a capacity the output buffer goes through
+	base := len(PMarshal(root))
+	targets := []int{4096, 4096, 4096, 8192, 4095, 4097, 0}
+	target := targets[cs.R.Intn(len(targets))] + []int{0, 0, 0, -1, 1}[cs.R.Intn(5)]
+	if target > base+3 {
+		pad := target - base - 3 // tag + 2-byte length (pad in 128..16383)
+		if pad < 128 {
+			pad = target - base - 2
+		}
+		if pad >= 16384 {
+			pad = target - base - 4
+		}
+		if pad > 0 {
+			root.Set(st.md.Fields().ByName("pad"), protoreflect.ValueOfString(strings.Repeat("a", pad)))
+		}
+	}
+	if cs.R.Bool() {
+		root.Set(st.md.Fields().ByName("tail"), protoreflect.ValueOfInt32(7))
+	}
+	total := len(PMarshal(root))
+	cs.Info("layout", fmt.Sprintf("region=%d nest=%d body=%d total=%d", region, nest, body, total))
+	return root, total, fmt.Sprintf("%d-%d-%d", region, nest, body)
+}
+
 func runC09(c *h.Ctx) {
 	c.Run("messages", c.N(8000, 300000), func(cs *h.Case) {
 		sc := gen.GenPSchema(cs.R, gen.PCfg{MaxDepth: 2, MaxFields: 6, Nested: cs.R.Bool(), Enums: true, BigNums: true, JSONNames: true})
@@ -427,68 +496,7 @@ func runC09(c *h.Ctx) {
 		if st == nil {
 			return
 		}
-		inD := st.md.Fields().ByName("in").Message()
-		root := dynamicpb.NewMessage(st.md)
-		mkIn := func(bodyLen int, nest int) *dynamicpb.Message {
-			// a message whose encoding is exactly bodyLen bytes (bodyLen >= 3): string s fills the rest
-			in := dynamicpb.NewMessage(inD)
-			cur := in
-			for k := 0; k < nest; k++ {
-				nx := dynamicpb.NewMessage(inD)
-				cur.Set(inD.Fields().ByName("in"), protoreflect.ValueOfMessage(nx))
-				cur = nx
-			}
-			for pad := 0; pad <= bodyLen; pad++ {
-				cur.Set(inD.Fields().ByName("s"), protoreflect.ValueOfString(strings.Repeat("b", pad)))
-				if len(PMarshal(in)) >= bodyLen {
-					break
-				}
-			}
-			return in
-		}
-		bodies := []int{126, 127, 128, 129, 130, 200, 16382, 16383, 16384, 16385, 20000}
-		body := bodies[cs.I%len(bodies)]
-		if cs.I >= len(bodies)*60 {
-			body = 100 + cs.R.Intn(500)
-		}
-		region := cs.R.Intn(5)
-		nest := cs.R.Intn(3)
-		switch region {
-		case 0:
-			root.Set(st.md.Fields().ByName("in"), protoreflect.ValueOfMessage(mkIn(body, nest)))
-		case 1:
-			root.Mutable(st.md.Fields().ByName("m")).Map().Set(protoreflect.ValueOfString("k").MapKey(), protoreflect.ValueOfMessage(mkIn(body, nest)))
-		case 2:
-			l := root.Mutable(st.md.Fields().ByName("p")).List()
-			for k := 0; k < body/2; k++ {
-				l.Append(protoreflect.ValueOfInt64(int64(cs.R.Intn(60)))) // zig-zag: one byte each up to 63
-			}
-		case 3:
-			root.Mutable(st.md.Fields().ByName("l")).List().Append(protoreflect.ValueOfMessage(mkIn(body, nest)))
-		case 4:
-			root.Mutable(st.md.Fields().ByName("ms")).Map().Set(protoreflect.ValueOfString("key").MapKey(), protoreflect.ValueOfString(strings.Repeat("v", body)))
-		}
-		// choose pad so that the region ends exactly at (or next to) a capacity the output buffer goes through
-		base := len(PMarshal(root))
-		targets := []int{4096, 4096, 4096, 8192, 4095, 4097, 0}
-		target := targets[cs.R.Intn(len(targets))] + []int{0, 0, 0, -1, 1}[cs.R.Intn(5)]
-		if target > base+3 {
-			pad := target - base - 3 // tag + 2-byte length (pad in 128..16383)
-			if pad < 128 {
-				pad = target - base - 2
-			}
-			if pad >= 16384 {
-				pad = target - base - 4
-			}
-			if pad > 0 {
-				root.Set(st.md.Fields().ByName("pad"), protoreflect.ValueOfString(strings.Repeat("a", pad)))
-			}
-		}
-		if cs.R.Bool() {
-			root.Set(st.md.Fields().ByName("tail"), protoreflect.ValueOfInt32(7))
-		}
-		total := len(PMarshal(root))
-		cs.Info("layout", fmt.Sprintf("region=%d nest=%d body=%d total=%d", region, nest, body, total))
+		root, total, key := c09BoundaryMsg(cs, st)
 		doc, _ := PRenderJSON(cs.R, root, PJSpell{})
 		if c09Check(cs, st.desc, st.md, doc, root, conv.Options{}, "prefix") {
 			cs.Cover("prefix_ok")
@@ -499,7 +507,7 @@ func runC09(c *h.Ctx) {
 			if total-tail == 4096 || total-tail == 8192 {
 				cs.Cover("region_ends_exactly_at_buffer_capacity")
 			}
-			cs.Distinct(fmt.Sprintf("pfx-%d-%d-%d-%d", region, nest, body, total-tail))
+			cs.Distinct(fmt.Sprintf("pfx-%s-%d", key, total-tail))
 		}
 	})
 
